@@ -99,6 +99,10 @@ pub fn specs(tier: &str) -> Vec<ExpSpec> {
         let cfg = vol::tiny_with(ft, 8, 16);
         v.push(ExpSpec::new(cfg, alphabet(512), if th { dt } else { dq }));
     }
+    // two free clusters: the third directory (or the first growing one) fails for lack of space
+    for ft in [FatType::Fat12, FatType::Fat16, FatType::Fat32] {
+        v.push(ExpSpec::new(vol::tiny_low(ft, 2, 16), alphabet(512), if th { 5 } else { 3 }));
+    }
     // geometry grid (sector 512..4096 x cluster 1..128 sectors x FAT12/16/32 x 1-2 FATs x small/large root), depth 2
     for c in crate::c03::grid(th) {
         let cs = {
